@@ -276,7 +276,7 @@ pub fn cases(mix: &str, n: usize, seed: u64) -> Vec<Case> {
             let mut d = Decl { uses: vec![], lifetimes: vec![], params: vec![] };
             for _ in 0..r.below(4) {
                 s.extend(b"@");
-                let u = *r.pick(&["use a::b", "use a::{b, c as d}", "use x::*", "use ::std::fmt", "use super::Content", "use a as b"]);
+                let u = *r.pick(&["use a::b", "use a::{b, c as d}", "use x::*", "use ::std::fmt", "use super::Content", "use a as b", "use super::Html as Markup", "use super::ToHtml as Render", "use super::statics::*", "use super::{a, b}", "use std::fmt::Write as _"]);
                 d.uses.push(u.to_string());
                 s.extend(u.as_bytes());
                 s.extend(b";");
